@@ -210,6 +210,6 @@ std::string demangle(const char *n);
 std::vector<std::unique_ptr<EventData>> read_events(const char *path);
 
 // Runs per_event() for every index of the schedule given on the command line.
-int drive(int argc, char **argv, const std::function<void()> &per_event);
+int drive(int argc, char **argv, const std::function<bool()> &per_event);  // per_event returns false to abort the job
 
 } // namespace vf
